@@ -57,6 +57,13 @@ def gen_int_cases(rnd, quick):
             y = [rnd.randint(-3, 3) for _ in x]
             o = oracle('covariance', x, y)
             cases.append(dict(BLANK, fn='covariance', x=x, y=y, num=o.numerator, den=o.denominator))
+    # mode over a wide range of values (unique mode): the histogram width depends on max - min
+    for _ in range(4 if quick else 30):
+        lo = rnd.randint(-60, 20)
+        vals = rnd.sample(range(lo, lo + rnd.choice([5, 33, 40, 70])), 4)
+        x = vals + [vals[rnd.randrange(4)]]
+        rnd.shuffle(x)
+        cases.append(dict(BLANK, fn='mode', x=x))
     return cases
 
 
@@ -80,6 +87,12 @@ def gen_fxp_cases(rnd, quick, f):
         cases.append(dict(BLANK, kind='fxp', fn='covariance', x=x, y=y, f=f, **enc([statistics.covariance(xf, yf)], 40 * n)))
         cases.append(dict(BLANK, kind='fxp', fn='quantiles', x=x, n=4, incl=True, f=f,
                           **enc(statistics.quantiles(xf, n=4, method='inclusive'), 24)))
+        # mode of fixed-point data (unique mode; ranges below and above 32): exact
+        lo_ = rnd.randint(-40, 10)
+        mv = rnd.sample(range(lo_, lo_ + rnd.choice([6, 34, 48])), 4)
+        mx = mv + [mv[rnd.randrange(4)]]
+        rnd.shuffle(mx)
+        cases.append(dict(BLANK, kind='fxp', fn='mode', x=[v * s for v in mx], f=f, **enc([float(statistics.mode(mx))], 0)))
         if len(set(xf)) > 1 and len(set(yf)) > 1:
             cases.append(dict(BLANK, kind='fxp', fn='correlation', x=x, y=y, f=f,
                               **enc([statistics.correlation(xf, yf)], s // 8)))
